@@ -45,7 +45,8 @@ class Multiline:
             "Current definition: {}".format(value))
       prev = gfapy.FieldArray(self.get_datatype(tagname), [prev])
       self._set_existing_field(tagname, prev)
-    if self.vlevel > 1:
+    if self.vlevel > 1 or (self.vlevel == 1 and datatype is not None and \
+                           datatype != prev.datatype):
       if datatype is not None and datatype == prev.datatype:
         # _vpush only compares the datatypes when one is given
         gfapy.Field._validate_gfa_field(value, datatype, tagname)
@@ -134,7 +135,7 @@ class Multiline:
     Refuse a tag whose datatype differs from that of the previous values
     (checked by add() if vlevel > 1) before anything is merged
     """
-    if self.vlevel <= 1:
+    if self.vlevel < 1:
       return
     for of in gfa_line.tagnames:
       prev = self.get(of)
